@@ -55,6 +55,9 @@ var c12Kinds = []string{
 	"vsettle:unknown-virtual", "vsettle:state-3parts", "vsettle:sigs-nil", "vsettle:other-id", "vsettle:twice",
 	// responses to a proposal of the victim that has already timed out, more of them than a receiver buffers
 	"presp:late-flood",
+	// a ledger channel proposal whose opening the sender abandons after the acceptance (it never signs the initial state); after the victim
+	// has given up, more answers for the initial version of that channel arrive than a receiver buffers
+	"lprop:abandoned-then-flood",
 	// an update of the victim could not be sent (connection fault); afterwards more answers for that version arrive than a receiver buffers
 	"uresp:flood-after-failed-send",
 	// a virtual channel settlement proposal that names an ordinary (honest, open) sub-channel of the ledger channel
@@ -106,7 +109,7 @@ func genC12(r *kernel.Rand) *kernel.Scenario {
 			w[i] = 10
 		case "sync:current", "sync:while-locked":
 			w[i] = 5
-		case "sprop:completed-then-funded-at-deadline":
+		case "sprop:completed-then-funded-at-deadline", "lprop:abandoned-then-flood":
 			w[i] = 4
 		case "lprop:ok", "sprop:ok-shape", "vprop:ok-shape", "vfund:ok-shape", "upd:final", "urej:pending", "uacc:pending-garbage-sig":
 			w[i] = 3
@@ -438,6 +441,36 @@ func (a *c12adv) send(step int, st *kernel.Step) bool {
 		}
 		time.Sleep(t.H.CtxTimeout + 2*time.Second) // the victim's opening attempt has timed out by now
 		kind = "sprop:funding-of"
+	}
+	if kind == "lprop:abandoned-then-flood" {
+		created := len(t.H.Rec.CreatedList())
+		m1 := a.build("lprop:ok", r, from, fromAcc, fromZ)
+		if m1 == nil || t.w.Bus.Inject(&wire.Envelope{Sender: from, Recipient: t.H.Wire, Msg: m1}, s.Delay(fmt.Sprintf("inject:%d", step), 0, 100*time.Microsecond)) != nil {
+			return false
+		}
+		s.Count("fault.msg.lprop:ok", 1)
+		for i := 0; i < 200 && len(t.H.Rec.CreatedList()) == created; i++ {
+			time.Sleep(100 * time.Millisecond)
+		}
+		l := t.H.Rec.CreatedList()
+		if len(l) == created {
+			return true // the proposal was refused: nothing to follow up
+		}
+		id := l[len(l)-1]
+		time.Sleep(t.H.CtxTimeout + 2*time.Second) // the victim's opening attempt has timed out by now
+		n := r.Range(17, 40)
+		for i := 0; i < n; i++ {
+			var m wire.Msg = &client.ChannelUpdateAccMsg{ChannelID: id, Version: 0, Sig: r.Bytes(64)}
+			if r.Bool(0.3) {
+				m = &client.ChannelUpdateRejMsg{ChannelID: id, Version: 0, Reason: "no"}
+			}
+			if t.w.Bus.Inject(&wire.Envelope{Sender: from, Recipient: t.H.Wire, Msg: m}, s.Delay(fmt.Sprintf("inject:%d:%d", step, i), 0, 100*time.Microsecond)) != nil {
+				return false
+			}
+		}
+		s.Count("fault.msg."+kind, 1)
+		s.Count("fault.initial_version_answers_after_abandoned_opening", int64(n))
+		return true
 	}
 	if kind == "uresp:flood-after-failed-send" {
 		// a connection fault makes one outgoing update of the victim fail while
